@@ -22,7 +22,7 @@ RULE = ('Generated property texts (inline, -p) and specification files (valid; s
         'failing run must print a diagnostic and no JSON document; a successful -o json run must print one strictly '
         'valid JSON document equal to the mirror serialisation of the AST parsed in-process. Non-trivial = JSON '
         'compared or error path judged with >= 2 events; distinct = shape x flags x outcome.')
-RULE_ADDED = ' Since the seeding rounds: finite extremes of the doubles, integers that no double holds exactly and one beyond the doubles\' range (compared exactly); empty and blank files.'
+RULE_ADDED = ' Since the seeding rounds: finite extremes of the doubles, integers that no double holds exactly and one beyond the doubles\' range (compared exactly); empty and blank files; strings and annotations with words a shell, os.path or a format call would expand ($HOME, ${HOME}/x, $PATH, ~, %s, {0}; the variables are set).'
 ASSUMPTIONS = [
     'argument texts starting with "-" are not judged (argparse takes them for options: caller error)',
     'the in-process parse outcome of the same text is the reference for "parses"',
@@ -86,7 +86,9 @@ def nonfinite_prop(rng, p):
 
 def wordy_prop(rng, p):
     """text-valued AST fields that spell the non-standard JSON constants (they must survive serialisation)"""
-    word = gen.pick(rng, ('NaN', 'Infinity', '-Infinity', 'null', 'got NaN from driver', 'Infinity and beyond'))
+    word = gen.pick(rng, ('NaN', 'Infinity', '-Infinity', 'null', 'got NaN from driver', 'Infinity and beyond',
+                          # words a shell, os.path or a format call would expand (HOME, PATH and HPLMON_WORD are set)
+                          '$HOME', '${HOME}/x', '$PATH', '$HPLMON_WORD', '~', '~/x', '%s', '%(arg)s', '{0}', '{arg}'))
     _, meta, scope, pat = p
     k = rng.random()
     if k < 0.4:
@@ -108,6 +110,8 @@ def run(ctx):
     n, nsub = BUDGET[ctx.tier]
     n, nsub = ctx.share(n), ctx.share(nsub)
     PP, PS = hplapi.parser('property'), hplapi.parser('specification')
+    os.environ.setdefault('HOME', '/root')
+    os.environ['HPLMON_WORD'] = 'expanded "word'
     tmp = tempfile.mkdtemp(prefix='hplmon-c19-', dir=os.environ.get('HPLMON_SCRATCH') or None)
     sub_done = 0
     pool = []
